@@ -53,6 +53,16 @@ def content_bytes(kind, what, salt):
     if what == "valid":
         obj = fmt7.build(FMT_OF[kind], random.Random("c20-%s" % salt))
         return obj.dumps().encode("utf-8")
+    if what == "validempty":
+        # a valid manifest with an EMPTY payload table (modules {}, images {}, rpms {}; composeinfo without variants)
+        rng = random.Random("c20e-%s" % salt)
+        obj = cls_of(kind)()
+        fmt7._compose(obj.compose, rng)
+        if kind == "info":
+            full = fmt7.build("composeinfo", rng)
+            obj = full
+            obj.variants.variants.clear()
+        return obj.dumps().encode("utf-8")
     if what == "hdronly":
         return json.dumps({"header": {"version": "1.2", "type": HEADER_TYPE[kind]}}).encode()
     if what in ("payloadlist", "payloadstr"):
@@ -99,7 +109,8 @@ class C20(Prop):
     thorough_budget = 6000
     rule = ("real directory trees: every single layout x every presence combination of the six file names x trailing slash "
             "(exhaustive), multi-layout combinations, every invalid-content kind x file, the two fixture composes; 7 accesses each "
-            "(every accessor at least once, repeated accesses); correspondence with the model fed the real os.listdir orders; "
+            "(every accessor at least once, repeated accesses); full and EMPTY-payload manifests with the file deleted between "
+            "two accesses for all four accessors; correspondence with the model fed the real os.listdir orders; "
             "oracle: resolved layout, file chosen, dumps() equal to a direct load, `is` identity and one load per kind, RuntimeError "
             "naming the location; non-trivial = distinct tree")
     assumptions = ["POSIX file system: exists/listdir ignore a trailing slash on a directory (hypothesis of C20_slash; exercised on real dirs)",
@@ -159,6 +170,25 @@ class C20(Prop):
                     files["composeinfo.json"] = "valid"
                 layouts[sub] = files
             yield {"op": "tree", "args": {"layouts": layouts, "slash": rng.random() < 0.5, "seed": 10000 + i, "accesses": self.accesses(rng)}}
+        # D. loaded once, then reused: full and EMPTY-payload manifests, the file deleted between two accesses
+        i = 0
+        for what in ("validempty", "valid"):
+            for k in KINDS:
+                for legacy_name in ([False, True] if len(FILES[k]) > 1 else [False]):
+                    sub = ["", "compose", "1.0"][i % 3]
+                    files = {FILES[k][1 if legacy_name else 0]: what}
+                    if sub == "compose":
+                        files.setdefault("composeinfo.json", "valid")
+                    others = [x for x in KINDS if x != k]
+                    for seq in ([k, k, "rm:" + k, k, k], [k, "rm:" + k, k, others[i % 3], k], ["rm:" + k, k, k]):
+                        i += 1
+                        yield {"op": "tree", "args": {"layouts": {sub: dict(files)}, "slash": i % 2 == 0, "seed": 30000 + i, "accesses": seq}}
+        for i in range(max(12, budget // 40)):
+            files = dict((FILES[k][0], rng.choice(["validempty", "valid"])) for k in KINDS)
+            seq = self.accesses(rng)
+            for _ in range(2):
+                seq.insert(rng.randrange(1, len(seq)), "rm:" + rng.choice(KINDS))
+            yield {"op": "tree", "args": {"layouts": {rng.choice(["", "compose", "1.0"]): files}, "slash": rng.random() < 0.5, "seed": 31000 + i, "accesses": seq}}
         # C. invalid content: every kind of damage x every file name x layout
         i = 0
         for what in sorted(INVALID):
@@ -194,6 +224,19 @@ class C20(Prop):
                 return orig_load(self, f)
             rel = lambda p: os.path.relpath(p, root) + ("/" if p.endswith("/") else "") if isinstance(p, str) and p.startswith(root) else p
             out = {"nodes": nodes, "orders": orders, "given": given}
+            # outcome of loading every candidate file directly (input of the model, and the oracle's reference) - taken
+            # BEFORE the accesses, which may delete files
+            direct = []
+            for relp, isdir in nodes:
+                name = os.path.basename(relp)
+                if not isdir and name in KIND_OF_FILE and os.path.basename(os.path.dirname(relp)) == "metadata":
+                    k = KIND_OF_FILE[name]
+                    try:
+                        o = cls_of(k)()
+                        o.load(os.path.join(root, relp))
+                        direct.append([k, relp, {"ok": o.dumps()}])
+                    except Exception as e:
+                        direct.append([k, relp, {"err": errname(e)}])
             C.MetadataBase.load = logged
             try:
                 try:
@@ -205,6 +248,16 @@ class C20(Prop):
                 results, objs = [], []
                 if comp is not None:
                     for k in a["accesses"]:
+                        if k.startswith("rm:"):
+                            removed = []
+                            if tmp:                                   # never in a fixture
+                                for n in FILES[k[3:]]:
+                                    fp = os.path.join(comp.compose_path, "metadata", n)
+                                    if os.path.isfile(fp):
+                                        os.remove(fp)
+                                        removed.append(rel(fp))
+                            results.append({"rm": True, "removed": removed})
+                            continue
                         before = len(log)
                         try:
                             o = getattr(comp, k)
@@ -228,18 +281,6 @@ class C20(Prop):
                 out["loads"] = [[c, rel(p)] for c, p in log]
             finally:
                 C.MetadataBase.load = orig_load
-            # outcome of loading every candidate file directly (input of the model, and the oracle's reference)
-            direct = []
-            for relp, isdir in nodes:
-                name = os.path.basename(relp)
-                if not isdir and name in KIND_OF_FILE and os.path.basename(os.path.dirname(relp)) == "metadata":
-                    k = KIND_OF_FILE[name]
-                    try:
-                        o = cls_of(k)()
-                        o.load(os.path.join(root, relp))
-                        direct.append([k, relp, {"ok": o.dumps()}])
-                    except Exception as e:
-                        direct.append([k, relp, {"err": errname(e)}])
             out["direct"] = direct
             return out
         finally:
@@ -270,6 +311,8 @@ class C20(Prop):
             for x in r["results"]:
                 if "ok" in x:
                     rres.append({"ok": x["ok"]["text"]}); rid.append(x["ok"]["ident"])
+                elif "rm" in x:
+                    rres.append({"rm": True}); rid.append(None)
                 else:
                     rres.append(x); rid.append(None)
             mres, mid = [], []
@@ -312,8 +355,19 @@ class C20(Prop):
         # 2. accessors
         direct = dict(((k, p), out) for k, p, out in r["direct"])
         first_ok, loads_per_kind = {}, {}
+        gone = set()
         for (k, res) in zip(a["accesses"], r["results"]):
-            present = [resolved + "/metadata/" + n for n in FILES[k] if nodes.get(resolved + "/metadata/" + n) is False]
+            if k.startswith("rm:"):
+                gone.update(resolved + "/metadata/" + n for n in FILES[k[3:]])
+                continue
+            if k in first_ok:
+                # already loaded successfully: the SAME object, whatever has happened to the file since
+                if "ok" not in res or res["ok"]["ident"] != first_ok[k] or res["ok"]["loaded_now"]:
+                    return {"observed": {"access": k, "result": res if "ok" not in res else {"identity": res["ok"]["ident"], "first": first_ok[k], "loaded_again": res["ok"]["loaded_now"]},
+                                         "files_deleted_meanwhile": sorted(gone)},
+                            "required": "loaded once and then reused: the same object on every later access (is), no further load", "kind": "not-cached"}
+                continue
+            present = [resolved + "/metadata/" + n for n in FILES[k] if nodes.get(resolved + "/metadata/" + n) is False and resolved + "/metadata/" + n not in gone]
             if not present:
                 want = {"err": "RuntimeError", "named": resolved}
                 got = dict(res)
@@ -356,7 +410,7 @@ class C20(Prop):
             k = "layouts:" + "+".join(sorted(x or "direct" for x in case["args"]["layouts"])) if case["args"]["layouts"] else "layouts:none"
             dist[k] = dist.get(k, 0) + 1
         for res in r.get("results", []):
-            k = "access ok" if "ok" in res else "access err:" + res["err"]
+            k = "access ok" if "ok" in res else "file deleted between accesses" if "rm" in res else "access err:" + res["err"]
             dist[k] = dist.get(k, 0) + 1
 
     def shrink_candidates(self, case):
